@@ -270,6 +270,47 @@ def search(ctx):
             ctx.notes.append('C16 oracle on %s raised %r' % (e.name, ex))
         if len(ctx.failing) >= 6 or ctx.elapsed() > 900:
             break
+    # gradients w.r.t. the layers' own trainable parameters against central finite differences
+    for e in oracles.all_entries('quick'):
+        if R.conditioner_of(e.build()) is not None or e.extra.get('big') or 'UMNN' in e.name:
+            continue
+        try:
+            t = tcorr.build(e, gen, torch.float64, 'normal')
+            ps = [p for p in t.parameters() if p.requires_grad]
+            if not ps:
+                continue
+            x = R.make_inputs(e, 2, gen, torch.float64, False)
+            if e.spline.get('B'):
+                x = torch.where((x.abs() - e.spline['B']).abs() < 1e-3, x * 0.37, x)
+            c = R.make_context(e, 2, gen, torch.float64)
+            def L():
+                y, ld = t(x, c) if c is not None else t(x)
+                return y.sum() + 0.7 * ld.sum()
+            t.zero_grad()
+            grads = torch.autograd.grad(L(), ps, allow_unused=True)
+            for p, g in zip(ps, grads):
+                d = torch.randn(p.shape, generator=gen, dtype=p.dtype)
+                h = 1e-6
+                with torch.no_grad():
+                    p.add_(h * d); lp = L().item(); p.sub_(2 * h * d); lm = L().item(); p.add_(h * d)
+                fd = (lp - lm) / (2 * h)
+                an = (g * d).sum().item() if g is not None else 0.0
+                if abs(fd - an) > 1e-4 * (1 + abs(fd)) + (1e-2 if e.spline.get('fam') == 'cubic' else 0):
+                    ctx.fail('gradient w.r.t. a trainable parameter differs from finite differences: autograd %r vs fd %r' % (an, fd),
+                             {'entry': e.name, 'x': x.reshape(-1).tolist()[:8]}, match={'class': e.name.split('/')[0], 'symptom': 'param-grad!=fd'})
+                    break
+        except Exception as ex:
+            ctx.notes.append('C16 parameter oracle on %s raised %r' % (e.name, ex))
+        if len(ctx.failing) >= 8 or ctx.elapsed() > 1200:
+            break
+    # cached linear family: parameter gradients through the cached path
+    class _C:   # collect as failing inputs instead of disagreements
+        pass
+    before = len(ctx.disagreements)
+    cached_linear_grads(ctx, gen)
+    for dgr in ctx.disagreements[before:]:
+        ctx.fail(dgr['why'], dgr['case'], match={'class': dgr['case'].get('class'), 'symptom': 'cached-param-grad'})
+    del ctx.disagreements[before:]
 
 
 def replay_finding(ctx, f):
